@@ -36,7 +36,7 @@ type WorldSpec struct {
 	HugeWords int          `json:"huge_words,omitempty"`
 	Bitmaps   []BitmapSpec `json:"bitmaps"`
 	Keys      []KeySpec    `json:"keys"`
-	Masks     []int32      `json:"masks"` // bmtree level masks (bitmapSize), height <= 9
+	Masks     []int32      `json:"masks"` // bmtree level masks (bitmapSize), height <= 8; the first one may be a full tree of height 10..12
 	Joins     []JoinSpec   `json:"joins"`
 }
 
@@ -151,6 +151,12 @@ func genWorldSpec(r *engine.PRNG) WorldSpec {
 			m = int32(1) << h // leaf only
 		}
 		w.Masks = append(w.Masks, m)
+	}
+	if r.Chance(1, 6) {
+		// a WIDE tree first (full, height 10..12: 2047..8191 paths), so that
+		// AllPaths can be asked for exactly 1000, 1024, 2048, 4096 ... paths: the
+		// sizes at which "the buffer happened to be exactly full" paths are taken
+		w.Masks[0] = int32(1)<<uint(r.PickInt(11, 11, 12, 13)) - 1
 	}
 	nj := 1 + r.Intn(3)
 	for i := 0; i < nj; i++ {
